@@ -280,12 +280,42 @@ struct Pipe {
 // 3: a constant around 2^31 / 2^32 / 2^53 / 2^63 / 10^19 / 2^64-2; 4: just too large (nbody + 1 + k); 0: no tail.
 // flags bit0: leading zeros, bit1: an extra header in front, bit2: no blank after the colon.
 struct Tail { std::string wire, declared; size_t head = 0, body = 0; int kind = 0; };
+
+// Request targets that are not in origin-form ("/path..."): absolute-form with and without path / query, "://" alone,
+// several "://", empty authority, asterisk-form, authority-form ...  What a server makes of them is not fixed by the
+// property (the unmodified parser rejects every target that does not start with '/'): any outcome, but a clean one.
+std::string hostile_target(uint64_t k) {
+  static const char *fixed[] = {"http://host", "http://host:8080", "http://demo?x=1", "://", "*", "host:443", "http://a://b/c", "http:///path", "http://",
+                                "https://user:pw@host/", "ftp://x", "a://", "//host/path", "http://host#f", "HTTP://HOST", "x://y://z", "http:/one-slash", "://host/p",
+                                "http://host:80/path?x=1", "http://host/", "http://[::1]:80", "http://host?", "http://host;p=1", "://?", "://#", "a://b", "://://", "http://h%2Fx",
+                                "http://host:80/a/b;p=1?q=2#f", "localhost", "?x=1", "#", "http:", "://a/", "%2F://x"};
+  const size_t nfixed = sizeof fixed / sizeof fixed[0];
+  if (k % 3 != 0) return fixed[(k / 3) % nfixed];
+  // composed: [scheme] "://" [authority] [path] [?query] [second "://"]
+  Rng g(k);
+  static const char *schemes[] = {"http", "https", "", "x", "HTTP", "a.b+c"};
+  static const char *auths[] = {"host", "", "host:80", "u:p@h", "[::1]", "h:", ":80", "demo"};
+  static const char *paths[] = {"", "", "/", "/p", "/a/b%20c", "/;k=v"};
+  static const char *queries[] = {"", "", "?x=1", "?", "?a=b&c=d", "#f"};
+  std::string t = std::string(schemes[g.in(0, 5)]) + "://" + auths[g.in(0, 7)] + paths[g.in(0, 5)] + queries[g.in(0, 5)];
+  if (g.chance(15)) t += "://" + std::string(auths[g.in(0, 7)]);
+  return t;
+}
 std::string dec_u64(uint64_t v) { return std::to_string((unsigned long long)v); }
-Tail build_tail(const Op &op, int index, bool with_id) {
+Tail build_tail(const Op &op, int index, bool with_id, bool allow_hostile_target = false) {
   Tail t;
-  t.kind = (int)op.in(0, 0, 4);
+  t.kind = (int)op.in(0, 0, 5);
+  if (t.kind == 5 && !allow_hostile_target) t.kind = 4;
   if (t.kind == 0) return t;
   uint64_t k = (uint64_t)op.in(1, 0, 400);
+  if (t.kind == 5) {
+    // a complete request (no body) whose target is not in origin-form; outcome left free (see hostile_target)
+    t.wire = std::string(kMethods[k % 7]) + " " + hostile_target(k) + " HTTP/1.1\r\n";
+    if (with_id) t.wire += "X-Req: " + std::to_string(index) + "\r\n";
+    t.wire += "Content-Length: 0\r\n\r\n";
+    t.head = t.wire.size(); t.declared = "0";
+    return t;
+  }
   int flags = (int)op.in(2, 0, 7);
   t.body = (size_t)op.in(3, 0, 12);
   std::string pre = "POST /tail HTTP/1.1\r\n";
@@ -377,7 +407,7 @@ Pipe build_pipe(const Parsed &ps, bool with_id, size_t max_dense, int id_base = 
     p.wire += p.reqs.back().wire;
   }
   if (ps.tail && !p.reqs.empty()) {
-    Tail t = build_tail(*ps.tail, id_base + (int)p.reqs.size(), with_id);
+    Tail t = build_tail(*ps.tail, id_base + (int)p.reqs.size(), with_id, with_id);   // hostile targets only in `pipeline`
     p.tail_off = p.wire.size(); p.tail_wire = t.wire; p.tail_declared = t.declared; p.tail_head = t.head; p.tail_body = t.body; p.tail_kind = t.kind;
     p.wire += t.wire;
   }
@@ -764,6 +794,7 @@ std::string run_pipeline(const Scenario &s, CaseInfo &info) {
       std::string dl = declared_length_violation(rq);
       if (!dl.empty()) fail("hand-over " + std::to_string(idx) + ": " + dl);
       if (idx >= nreq) {
+        if (p.tail_kind == 5) return;   // the request with a non-origin-form target was accepted: allowed (default 404)
         if (idx == nreq && p.tail_kind != 0)
           fail("the incomplete last request (Content-Length " + p.tail_declared + ", " + std::to_string(p.tail_body) + " body bytes sent) was handed to the handler with a body of " + std::to_string(rq.body.size()) + " bytes");
         else fail("handler called " + std::to_string(idx + 1) + " times, only " + std::to_string(nreq) + " requests were sent");
@@ -841,6 +872,7 @@ std::string run_pipeline(const Scenario &s, CaseInfo &info) {
       if (clen < 0) { fail("client stream: response " + std::to_string(responses) + " has no Content-Length: '" + printable(head, 60) + "'"); return; }
       if (rx.size() < he + 4 + (size_t)clen) return;   // body incomplete
       int j = responses;
+      if (j >= N && p.tail_kind == 5 && close_pos < 0) { rx_parsed = rx.size(); return; }   // whatever is answered to the hostile target
       if (j >= N) {
         fail(close_pos >= 0 ? "a response (X-Id " + id + ") was written after the response to the closing request " + std::to_string(close_pos)
                             : "more responses than requests: extra response with X-Id " + id);
@@ -941,7 +973,9 @@ std::string run_pipeline(const Scenario &s, CaseInfo &info) {
   }
 
   // ---- verdict (a life that was cut short is only judged by what had arrived: order, ids, content)
-  if (err.empty() && !cut_short) {
+  // (a pipeline that ends with a non-origin-form target is judged like a life cut short: the server may drop the
+  //  connection on it at any time, and with it responses that were still pending)
+  if (err.empty() && !cut_short && p.tail_kind != 5) {
     std::string order; for (int x : completed_order) order += std::to_string(x) + " ";
     if (rx_parsed < rx.size() && responses >= N) fail(std::to_string(rx.size() - rx_parsed) + " bytes follow the last expected response: '" + printable(rx.substr(rx_parsed), 40) + "'");
     else if (responses < N) {
@@ -989,8 +1023,9 @@ std::string run_pipeline(const Scenario &s, CaseInfo &info) {
   info.cls_if(chain_deferred, "next_deferred_to_a_later_pass"); info.cls_if(chain_next_only, "next_deferred_without_keeping_the_context");
   info.cls_if(chain_keep_ctx, "next_deferred_keeping_the_context"); info.cls_if(chain_early_answer, "answered_by_an_earlier_stage");
   info.cls_if(chain_fallthrough, "chain_ends_without_answer_default_404");
-  info.cls_if(p.tail_kind != 0, "incomplete_last_request"); info.cls_if(p.tail_kind == 1 || p.tail_kind == 2, "incomplete_last_request_length_near_2^64");
-  info.cls_if(p.tail_kind != 0 && close_pos < 0 && !p.cut_tail, "incomplete_last_request_head_in_one_segment_reaches_parser");
+  info.cls_if(p.tail_kind != 0 && p.tail_kind != 5, "incomplete_last_request"); info.cls_if(p.tail_kind == 1 || p.tail_kind == 2, "incomplete_last_request_length_near_2^64");
+  info.cls_if(p.tail_kind == 5, "last_request_with_non_origin_form_target");
+  info.cls_if(p.tail_kind != 0 && p.tail_kind != 5 && close_pos < 0 && !p.cut_tail, "incomplete_last_request_head_in_one_segment_reaches_parser");
   info.cls_if(N >= 3, "three_or_more_answered"); info.cls_if(segs.size() > 1, "segmented");
   info.cls_if(p.cut_method || p.cut_hname || p.cut_crlf, "cut_inside_method_or_header_line");
   info.cls_if(close_errno != 0, "close_seen_as_ECONNRESET");
@@ -1075,7 +1110,8 @@ void gen_pipeline_life(Rng &g, std::vector<Op> &v, int nst, bool later_life) {
     v.push_back(mk(REQ, a));
   }
   bool tail = g.chance(close_pos < 0 ? 45 : 10);
-  if (tail) gen_tail(g, v);
+  if (tail && g.chance(22)) v.push_back(mk(TAIL, {5, g.in(0, 400), 0, 0}));   // complete request with a non-origin-form target
+  else if (tail) gen_tail(g, v);
   gen_cuts(g, v, nreq, later_life ? 4 : 8);
 }
 
@@ -1122,6 +1158,13 @@ Scenario expand_total(int64_t seed) {
   // arithmetic, and values just below 2^64 chosen relative to the length of this very head (2^64 - head length, 2^64 - k
   // for k up to a little more than the head length), with leading zeros / plus sign / >= 2^64 variants.  Mostly
   // without further damage and often unsegmented, so that head and length test meet in one parse() call.
+  // An eighth of the cases: the target of one request is replaced by one that is not in origin-form (absolute-form with
+  // / without path, "://" alone, several "://", empty authority, "*", authority-form ...), mostly without other damage.
+  auto replace_target = [&](size_t from) {
+    size_t sp = w.find(' ', from), sp2 = sp == std::string::npos ? sp : w.find(' ', sp + 1);
+    if (sp2 != std::string::npos) w.replace(sp + 1, sp2 - sp - 1, hostile_target((uint64_t)g.in(0, 1 << 20)));
+  };
+  if (g.chance(12)) { replace_target(where[(size_t)g.in(0, nreq - 1)].first); nm = g.chance(75) ? 0 : 1; }
   bool extreme = g.chance(20);
   if (extreme) {
     auto &rq = where[(size_t)g.in(0, nreq - 1)];
@@ -1147,7 +1190,8 @@ Scenario expand_total(int64_t seed) {
   }
   for (int k = 0; k < nm && !w.empty(); ++k) {
     size_t at = (size_t)g.in(0, (int64_t)w.size() - 1);
-    switch (g.pick({{5, 0}, {4, 1}, {2, 2}, {1, 3}, {2, 4}, {3, 5}, {3, 6}, {2, 7}, {3, 8}})) {
+    switch (g.pick({{5, 0}, {4, 1}, {2, 2}, {1, 3}, {2, 4}, {3, 5}, {3, 6}, {2, 7}, {3, 8}, {3, 9}})) {
+      case 9: replace_target(g.chance(60) ? 0 : at); break;
       case 0: { size_t c = w.find("Content-Length:", g.chance(50) ? 0 : at); if (c == std::string::npos) c = w.find("Content-Length:");
                 if (c != std::string::npos) { size_t e = w.find("\r\n", c); if (e != std::string::npos) w.replace(c + 15, e - c - 15, std::string(g.chance(70) ? " " : "") + bad_numbers[g.in(0, 19)]); } break; }
       case 1: { static const char sp[] = {' ', '\r', '\n', ':', '%', 0, (char)0xff, '/', ';', '?', '#', '=', '&', '\t'}; w[at] = g.chance(60) ? sp[g.in(0, 13)] : (char)g.in(0, 255); break; }
